@@ -71,9 +71,28 @@ def run(chk, tier, seed):
             full_out[pi] = o
             events.append(bc.ev_run("full-%d" % pi, d, 7, data, o))
 
+        # where lines begin (a cut there leaves whole lines only): those prefixes are listed both from a file and from a pipe
+        def line_starts(d, data):
+            st, i = set(), 0
+            if bc.is_le(d):
+                while i < len(data) and data[i] != 0:
+                    st.add(i)
+                    i += data[i] if data[i] >= 3 else 3
+                st.add(i)
+            else:
+                while i + 3 < len(data) and data[i + 1] != 0xFF:
+                    st.add(i)
+                    i += max(4, data[i + 3])
+                st.add(i)
+            return st
+        starts = {pi: line_starts(d, data) for pi, (d, data) in enumerate(progs)}
+        jobs += [("cutpipe", pi, d, data, inp) for (kind, pi, d, data, inp) in list(jobs) if kind == "cut" and len(inp) in starts[pi]]
+
         def do(ij):
             i, (kind, pi, d, data, inp) = ij
-            o = bc.run_one(exe, d, 7, inp, scratch, "j%d" % i, stdin=(i % 7 == 0))
+            o = bc.run_one(exe, d, 7, inp, scratch, "j%d" % i, stdin=(i % 7 == 0 or kind == "cutpipe"))
+            if kind == "cutpipe":
+                kind = "cut"
             evs = [bc.ev_run("%s-%d-%d" % (kind, pi, len(inp)), d, 7, inp, o)]
             if kind == "cut":
                 evs.append(dict(e="prefix", label="cut-%d-%d" % (pi, len(inp)), dialect=d, listo=7, inp=list(inp), out_cut=list(o.out),
@@ -94,15 +113,18 @@ def run(chk, tier, seed):
             paths = {}
             single = {}
             for k, dat in files.items():
-                paths[k] = os.path.join(scratch, "multi-%s-%s.bbc" % (d, k))
+                # (two of the files have names that begin with '-': after another file name, or after --, they are files like any other)
+                paths[k] = os.path.join(scratch, ("-multi-%s-%s.bbc" if k in "BT" else "multi-%s-%s.bbc") % (d, k))
                 open(paths[k], "wb").write(dat)
-                single[k] = common.run([exe, "--dialect", d, paths[k]])
+                plain = os.path.join(scratch, "single-%s-%s.bbc" % (d, k))          # the reference listing comes from an ordinary name
+                open(plain, "wb").write(dat)
+                single[k] = common.run([exe, "--dialect", d, plain], stdin=b"")
             seqs = [s for n in range(1, maxn + 1) for s in itertools.product("ABTCULM", repeat=n)]
             if quick:
                 seqs = [s for i, s in enumerate(seqs) if len(s) < 3 or i % 3 == 0]
 
             def dom(s):
-                o = common.run([exe, "--dialect", d] + [paths[k] for k in s])
+                o = common.run([exe, "--dialect", d, "--"] + [os.path.basename(paths[k]) for k in s], cwd=scratch, stdin=b"")
                 return dict(e="multi", label="multi-" + "".join(s), dialect=d, listo=7, out=list(o.out), rc=o.rc if o.rc is not None else -9,
                             outs=[list(single[k].out) for k in s], rcs=[single[k].rc for k in s], inp=[ord(c) for c in "".join(s)])
             events += common.pmap(dom, seqs)
